@@ -112,7 +112,7 @@ func GenCase(t *rapid.T, bias Bias, stratum int) Case {
 	nf := rapid.IntRange(0, 12).Draw(t, "nFaults")
 	kinds := []string{"ok", "ok", "temp", "temp", "perm", "drop-before", "lost-ack", "lost-ack", "cut", "slow", "leader-move"}
 	if bias == BiasOrder {
-		kinds = []string{"ok", "temp", "temp", "lost-ack", "lost-ack", "drop-before", "cut", "leader-move"}
+		kinds = []string{"ok", "temp", "temp", "lost-ack", "lost-ack", "drop-before", "cut", "leader-move", "perm", "slow"}
 	}
 	stall := false
 	for i := 0; i < nf; i++ {
